@@ -26,7 +26,7 @@ class IterPatterns(Contract):
     """Glob._iter_patterns(patterns, force_negate): one call = one list (inclusions, or exclusions with force_negate).
     Entry state (total0, cl0) comes from __init__ or from the previous call; the post state re-establishes the entry
     relation, so the two calls compose (lemma below)."""
-    module, qual, props = 'glob', 'Glob._iter_patterns', ('C11', 'C07', 'C13', 'C20', 'C03')
+    module, qual, props = 'glob', 'Glob._iter_patterns', ('C11', 'C07', 'C13', 'C20', 'C03', 'C10')
     assumptions = ('bracex.iexpand raises ExpansionLimitException only if its limit > 0 and the brace expansions exceed it (read, not verified)',
                    'expand() yields t(i) >= 1 items for pattern i; the consumer of the generator does not touch self.total / self.current_limit between items')
     set_sort = z3.StringSort()
